@@ -139,7 +139,7 @@ PROPS = {
         'trusted': ['f64 rounding is not modelled (theorems exact over R; the search evaluates them on the real outputs with the property tolerance 1e-9)'],
     },
     'C02': {
-        'level_text': 'Proof over R: score = area*N/cellArea with cellArea = |AxB| (C14); LineShape area equals the shoelace area of the closed outline from_radial builds (n>=3, r>=0), (n/2) sin(2pi/n) for polygon n; disc-union area = measure of the union minus the triple intersection for any finite measure realising the disc and lens values (exact when no point lies in all three discs, an under-count otherwise: known finding F10). The lens value is proved for Lebesgue measure and axis-aligned discs in all three regimes (C02Lens.volume_inter_eq_circleOverlap, by integration). area / score / cell area are regenerated from the source and proved equal to the model (TieDisc, TieHardShape, TieCell, TiePacked). score <= 1: for N measurable copies ALL of whose lattice translates are pairwise disjoint (the conclusion of C01), N*area <= |det(A,B)| = cell area, for Lebesgue measure on the plane and the lattice spanned by any basis (C02Tiling.packing_fraction_le_one, from Blichfeldt's principle and the ZSpan fundamental domain; the tiling hypothesis of covered_le_cell is thereby a theorem). Partial: the rigid motion reducing a general pair of discs to an axis-aligned one is not formalised; measurability of the placed shapes is a hypothesis.',
+        'level_text': 'Proof over R: score = area*N/cellArea with cellArea = |AxB| (C14); LineShape area equals the shoelace area of the closed outline from_radial builds (n>=3, r>=0), (n/2) sin(2pi/n) for polygon n; disc-union area = measure of the union minus the triple intersection for any finite measure realising the disc and lens values (exact when no point lies in all three discs, an under-count otherwise: known finding F10). The lens value is proved for Lebesgue measure and axis-aligned discs in all three regimes (C02Lens.volume_inter_eq_circleOverlap, by integration). area / score / cell area are regenerated from the source and proved equal to the model (TieDisc, TieHardShape, TieCell, TiePacked). score <= 1: for N measurable copies ALL of whose lattice translates are pairwise disjoint (the conclusion of C01), N*area <= |det(A,B)| = cell area, for Lebesgue measure on the plane and the lattice spanned by any basis (C02Tiling.packing_fraction_le_one, from the principle of Blichfeldt and the ZSpan fundamental domain; the tiling hypothesis of covered_le_cell is thereby a theorem). Partial: the rigid motion reducing a general pair of discs to an axis-aligned one is not formalised; measurability of the placed shapes is a hypothesis.',
         'level_note': 'Trusted: lens-area closed form and "shoelace = area" as geometry; Lean kernel + 3 axioms; Mathlib measure theory; area/score functions tied by bit-exact pair/state families.',
         'technique': 'Lean 4 proof (trigonometric identities, inclusion-exclusion and integration in measure theory) + source-to-Lean translation with tie theorems + differential correspondence + exact-area oracle',
         'theorems': ['Proofs.C02', 'Proofs.TieDisc', 'Proofs.TieCell', 'Proofs.TieHardShape', 'Proofs.TiePacked', 'Proofs.C02Lens', 'Proofs.SrcC02', 'Proofs.TieShapeDispatch', 'Proofs.C02Tiling'],
